@@ -137,4 +137,46 @@ example : ((runEvents (Engine.new {}) [.user 0 (.publish { qos := 1, topic := [9
       .service 7 4096 0]).1.userQ.length) = (1, 1) := by
   decide +kernel
 
+/-- **The throttle is on exactly while an interrupted operation is unresolved - after any sequence of events**: with the
+    one-at-a-time drain configured, a Connected engine's slow-start count is the number of marks carried by the operations it
+    still tracks (a mark is put on every operation the disconnection interrupted, and leaves with the operation when it is
+    resolved); so the count is zero if and only if none of them is left.  (Clause `slow` of the engine invariant.) -/
+theorem slow_start_count_is_the_marks_left (cfg : Config) (evs : List Event)
+    (hd : (runEvents (Engine.new cfg) evs).1.cfg.drainOneAtATime = true)
+    (hc : (runEvents (Engine.new cfg) evs).1.state = .connected) :
+    (runEvents (Engine.new cfg) evs).1.slowStartCount =
+      ((runEvents (Engine.new cfg) evs).1.ops.map (·.2.slowStart)).sum := by
+  have h := (inv_after cfg evs).1.slow hd (by simp [Engine.core, hc])
+  exact h
+
+theorem sum_zero_iff (l : List Nat) : l.sum = 0 ↔ ∀ x ∈ l, x = 0 := by
+  induction l with
+  | nil => simp
+  | cons a r ih =>
+    simp only [List.sum_cons, List.mem_cons, forall_eq_or_imp]
+    constructor
+    · intro h; exact ⟨by omega, ih.mp (by omega)⟩
+    · intro ⟨h1, h2⟩; rw [h1, ih.mpr h2]
+
+theorem throttle_off_iff_no_mark_left (cfg : Config) (evs : List Event)
+    (hd : (runEvents (Engine.new cfg) evs).1.cfg.drainOneAtATime = true)
+    (hc : (runEvents (Engine.new cfg) evs).1.state = .connected) :
+    (runEvents (Engine.new cfg) evs).1.slowStartThrottled = false ↔
+      ∀ x ∈ (runEvents (Engine.new cfg) evs).1.ops, x.2.slowStart = 0 := by
+  have hs := slow_start_count_is_the_marks_left cfg evs hd hc
+  unfold Engine.slowStartThrottled
+  rw [hd, hc, hs]
+  simp only [Bool.true_and, beq_self_eq_true]
+  constructor
+  · intro h x hx
+    have h0 : ((runEvents (Engine.new cfg) evs).1.ops.map (·.2.slowStart)).sum = 0 := by simpa using h
+    exact (sum_zero_iff _).mp h0 x.2.slowStart (List.mem_map_of_mem (f := fun y => y.2.slowStart) hx)
+  · intro h
+    have h0 : ((runEvents (Engine.new cfg) evs).1.ops.map (·.2.slowStart)).sum = 0 := by
+      apply (sum_zero_iff _).mpr
+      intro y hy
+      obtain ⟨x, hx, rfl⟩ := List.mem_map.mp hy
+      exact h x hx
+    simp [h0]
+
 end GV.Props.C09
